@@ -4,6 +4,7 @@ import (
 	"bytes"
 	"fmt"
 	"math/rand"
+	"time"
 
 	"github.com/named-data/ndnd/fw/defn"
 	"github.com/named-data/ndnd/fw/dispatch"
@@ -86,6 +87,80 @@ func c10W(cfg c10Cfg, m *c10Msg, fragLen int) int {
 	return w
 }
 
+// c10Internal: the internal transport (the face management listens on) queues the frames the link
+// service emits until its reader takes them. Several packets sent back to back, read only
+// afterwards, must come out as exactly those packets, in order, each with its own PIT token.
+func c10Internal(c *h.Ctx, id string, r *rand.Rand) {
+	c.Eval(1)
+	var link face.LinkService
+	var tr *face.InternalTransport
+	if pi := h.Guard(func() { link, tr = face.RegisterInternalTransport() }); pi != nil || link == nil {
+		c.Inconclusive("cannot register an internal transport")
+		return
+	}
+	ls, ok := link.(*face.NDNLPLinkService)
+	if !ok {
+		c.Inconclusive("internal face is not an NDNLP link service")
+		return
+	}
+	k := 2 + r.Intn(4)
+	type sent struct {
+		wire, tok []byte
+	}
+	var all []sent
+	inFace := uint64(77)
+	for i := 0; i < k; i++ {
+		content := make([]byte, 10+r.Intn(3000))
+		r.Read(content)
+		nm, _ := enc.NameFromStr(fmt.Sprintf("/internal/%d", i))
+		_, wire, err := makeData(nm, nil, content)
+		if err != nil {
+			c.Inconclusive("cannot build Data")
+			return
+		}
+		l3, _, err := spec.ReadPacket(enc.NewBufferReader(append([]byte{}, wire...)))
+		if err != nil {
+			c.Inconclusive("harness packet does not parse")
+			return
+		}
+		tok := []byte{byte(i), 0xAA, byte(r.Intn(256))}
+		p := &defn.Pkt{Raw: append([]byte{}, wire...), L3: l3, IncomingFaceID: &inFace}
+		out := dispatch.OutPkt{Pkt: p, PitToken: tok, InFace: &inFace}
+		if pi := h.Guard(func() { face.VerifSend(ls, out) }); pi != nil {
+			c.Violation("C10:panic:send:"+pi.Frame+":"+pi.Class, id, "sendPacket panicked on the internal face: "+pi.Value, nil)
+			return
+		}
+		all = append(all, sent{wire, tok})
+	}
+	type rec struct {
+		wire, tok []byte
+	}
+	got := make(chan rec, k)
+	go func() {
+		for i := 0; i < k; i++ {
+			w, tok, _ := tr.Receive()
+			if w == nil {
+				return
+			}
+			got <- rec{append([]byte{}, w.Join()...), append([]byte{}, tok...)}
+		}
+	}()
+	c.Count("internal_transport_packets", int64(k))
+	c.Distinct(fmt.Sprintf("internal|k=%d", k))
+	for i := 0; i < k; i++ {
+		select {
+		case g := <-got:
+			if !bytes.Equal(g.wire, all[i].wire) || !bytes.Equal(g.tok, all[i].tok) {
+				c.Violation("C10:internal-transport-packet-differs", id, fmt.Sprintf("packet %d of %d read from the internal transport is not packet %d that was sent (bytes equal: %v, PIT token %x, sent %x)", i, k, i, bytes.Equal(g.wire, all[i].wire), g.tok, all[i].tok), map[string]any{"packets": k})
+				return
+			}
+		case <-time.After(20 * time.Second):
+			c.Violation("C10:not-delivered:internal-transport", id, fmt.Sprintf("only %d of %d packets sent on the internal face could be read", i, k), nil)
+			return
+		}
+	}
+}
+
 func c10Run(c *h.Ctx) {
 	cfg0 := fwenv.Config()
 	// congestion marking by the link service itself is switched off, so that the
@@ -97,6 +172,12 @@ func c10Run(c *h.Ctx) {
 	mtus := []int{128, 129, 255, 256, 257, 576, 1280, 1500, 8800}
 	if c.Thorough() {
 		mtus = append(mtus, 130, 200, 300, 1024, 2000, 4000, 8799)
+	}
+	for k := 0; k < c.Pick(4, 30); k++ {
+		id := fmt.Sprintf("internal%d", k)
+		if c.Case(id) {
+			c10Internal(c, id, c.Rng(id))
+		}
 	}
 	n := c.Pick(3000, 30000)
 	for k := 0; k < n; k++ {
